@@ -126,6 +126,16 @@ func replay(f *lib.Flags, c16 bool) {
 	v, why := specVerdict(g, s)
 	fmt.Printf("text:  %q\ngo:    %s\nmodel: %s\nspec:  %s\nverdict: %s (%s)\n", text, g, m, s, v, why)
 	bad := g != m || v == "violates" || strings.HasPrefix(g, "panic ")
+	if c16 {
+		marks, _ := d.Ask("spec.marks " + rp.TextHex)
+		if b := positionsOutside(g, string(text)); b != "" {
+			fmt.Printf("position: %s is not a position of the text\n", b)
+			bad = true
+		} else if b, want := notAMark(g, marks); b != "" {
+			fmt.Printf("position: the error %s does not stand at a token, backslash or opener of its kind (%s)\n", b, want)
+			bad = true
+		}
+	}
 	if c16 && rp.FaultClass != "" {
 		pos, _ := d.Ask(fmt.Sprintf("spec.pos %s %d", rp.TextHex, rp.FaultOff))
 		want := strings.Replace(pos, " ", ":", 1) + ":" + rp.FaultClass
